@@ -151,7 +151,7 @@ def run (kv : KV) : String :=
     if get kv "streamed_first" == "1" then
       match readHead bytes fin with
       | .ok (h, rest) =>
-        (match framingOf h.headers with
+        (match framingFor h.version h.headers with
          | .ok fr =>
            let (body, rest1) := initialBody fr.kind rest
            (match Body.drain (rest1.length + 2) body rest1 fin with
